@@ -1,6 +1,7 @@
 """C02 (rest): orientations, centres, frames, IAU-1980 / IAU-2010 chains."""
 import itertools
 import math
+import os
 import types
 
 import numpy as np
@@ -353,3 +354,46 @@ def _(c):
     # GAST vs ERA-based rotation of the x axis: the two Earth-rotation angles differ by the accumulated precession in RA (equation of the origins) ~ 4612"/cy * T
     pef_tod = np.asarray(StateVector([1.0, 0, 0, 0, 0, 0], date, "cartesian", "PEF").copy(frame="TOD"), dtype=float)
     c.ensure("pef_tod_is_rotation_about_z", abs(pef_tod[2]) < 1e-12 and abs(np.linalg.norm(pef_tod[:3]) - 1) < 1e-12)
+
+
+def _grid_eop_files(tier, rng):
+    """both IERS files of tests/data/pole (finals.all for the 1980 model, finals2000A.all for the 2010 model), every line"""
+    yield {"file": 0}
+    yield {"file": 1}
+
+
+@contract("C02", "eop.reader", funcs=["beyond.dates.eop:Finals2000A.__init__", "beyond.dates.eop:Finals.__init__"], grid=_grid_eop_files, level="finite")
+def _(c):
+    """finite (exhaustive over the files shipped with the tests): every value the reader returns -- pole x, y (arcsec), UT1-UTC (s), LOD (ms) and the nutation / CIP
+    corrections (mas) -- equals the field of the IERS fixed-width record, transcribed here from the IERS readme (1-based columns 19-27, 38-46, 59-68, 80-86, 98-106,
+    117-125), sign included; a date without LOD or corrections takes the previous day's"""
+    from beyond.dates.eop import Finals, Finals2000A
+    name, cls, d1, d2 = [("finals.all", Finals, "dpsi", "deps"), ("finals2000A.all", Finals2000A, "dx", "dy")][c.integer("file")]
+    path = os.path.join(os.environ.get("BEYOND_REPO", "/repo"), "tests", "data", "pole", name)
+    db = cls(path)
+
+    def field(line, a, b):
+        txt = line[a - 1:b].strip()
+        return float(txt) if txt else None
+    n = n_neg = 0
+    ok = {"x": True, "y": True, "ut1_utc": True, "lod": True, d1: True, d2: True}
+    prev = {}
+    with open(path, encoding="ascii") as fp:
+        for line in fp:
+            line = line.rstrip("\n")
+            mjd = int(float(line[7:15]))
+            want = {"x": field(line, 19, 27), "y": field(line, 38, 46), "ut1_utc": field(line, 59, 68), "lod": field(line, 80, 86), d1: field(line, 98, 106), d2: field(line, 117, 125)}
+            if want["x"] is None:
+                break
+            for k in ("lod", d1, d2):
+                if want[k] is None:
+                    want[k] = prev[k]
+            got = db[mjd]
+            for k in ok:
+                ok[k] = ok[k] and got[k] == want[k]
+            n += 1
+            n_neg += want["x"] < 0
+            prev = want
+    c.ensure("file_not_empty_and_has_negative_pole_x", n > 10000 and n_neg > 1000)
+    for k, v in ok.items():
+        c.ensure(f"field.{k if k in ('x', 'y', 'ut1_utc', 'lod') else 'correction_' + str(1 + (k == d2))}", v)
